@@ -283,3 +283,16 @@ package registry
 //@   functional registry.deCapitalise
 //@   requires s != ""
 //@   ensures r == decap(s) && r != ""
+
+//@ func registry.Var.packageQualifier -> q
+//@   props C10
+//@   safety C19
+//@   requires pkg != nil && entriesHavePkg(v.imports)
+//@   ensures own-package-unqualified: v.moqPkgPath != "" && canon(pkg) == v.moqPkgPath ==> q == ""
+//@   ensures registered-qualifier: !(v.moqPkgPath != "" && canon(pkg) == v.moqPkgPath) ==> q == qual(v.imports[canon(pkg)])
+
+//@ func registry.Var.IsSlice -> r
+//@   props C02
+//@   safety C19
+//@   requires v.vr != nil
+//@   ensures underlying-slice: r <==> isType(v.vr.Type().Underlying(), *types.Slice)
